@@ -407,3 +407,7 @@ def run(ctx):
     ctx.rule('C02.LIMIT', lambda: c17.rule_generator_limit(ctx, 'C02.LIMIT'), 1)
     ctx.rule('C02.FSMETA', lambda: c04.rule_file_offsets(ctx, 'C02'), 5)
     ctx.rule('C02.COLLISION', lambda: c01.rule_collision(ctx, 'C02.COLLISION'), 2)
+    # a compacted (or half-compacted, or compaction-cancelled) database is still an index: the row-id discipline of the
+    # compaction tool (C14) is a necessary condition of exact histories afterwards
+    from . import c14
+    c14.run(ctx)
